@@ -51,11 +51,14 @@ CLAIMED = {
 }
 
 CLAIMED.update({
-    "C01": ("PARTIAL. Proved: every offer of get_next_tasks is the (id, route) of a ready, not-completed staged entry of the "
-            "state the call was made in (for every evaluator and state); the recorded justification (prev, ctxs.in) of a "
-            "started record is permanent. Tested, not proved: a record is created only for a start task or through a satisfied "
-            "transition of a completed predecessor that is a transition of the definition; exactly-once and the multiset "
-            "equality with what the definition prescribes.",
+    "C01": ("PARTIAL. Proved: every offer of get_next_tasks is a ready, not-completed staged entry; as an invariant of every "
+            "history of API calls from a fresh conductor (reruns and raising calls included) every staged entry and every "
+            "record is justified -- a start task of the graph, or each predecessor is a completed record whose transition "
+            "into it is an edge of the graph recorded satisfied -- under the protocol clause that a record which has decided "
+            "its transitions gets no further completion report while retries are left (witness without it); 'recorded "
+            "satisfied' is exactly 'the criteria evaluated truthy in the context made from the reported status and result'; "
+            "the justification of a started record is permanent. Tested, not proved: exactly-once and the multiset equality "
+            "with what the definition prescribes.",
             "Monitor c01 reads transitions and start tasks straight from the definition; known findings D1, D8."),
     "C05": ("Proved: the codec round trip dec_cstate (enc_cstate c) = Some c for every initialised state (no other "
             "well-formedness needed; transition/pointer ids round-trip for every task name), persisting a restored conductor "
@@ -134,8 +137,9 @@ CLAIMED.update({
     "C07": ("PARTIAL. Proved: barrier satisfied iff the number of distinct inbound tasks with a satisfied transition into the "
             "join on the route reaches the requirement (all / count); each inbound task counts once through its own record; "
             "only ready entries are offered; completing (not by cancel) with an unready unsatisfiable join fails the workflow "
-            "and hands the joins over to be logged. Tested, not proved: ready flag = barrier status at the last arrival; once "
-            "per satisfaction (refuted for join: n below inbound count by known finding D1).",
+            "and hands the joins over to be logged. The ready flag of a staged entry equals the barrier status computed at each "
+            "arrival and nothing else rewrites it. Tested, not proved: once per satisfaction (refuted for join: n below "
+            "inbound count by known finding D1).",
             "Known findings D1, D21."),
     "C19": ("PARTIAL. Determinism holds by construction for the model (Gallina functions) and the engine is compared with "
             "that single answer after every API call; proved: offers are sorted by (id, route); the query is the identity in "
@@ -152,9 +156,13 @@ CLAIMED.update({
             "targets behind reachable tasks, and composes (compose fails only by fuel); the inspected positions and their "
             "order are exactly the expected ones (regenerated from /repo on every run); per spec object an unassigned "
             "variable is reported iff referenced before any assignment; evaluation failures never escape an API call (C11). "
+            "No internal error: from a well-formed state over a statically well-formed graph every status request, poll, "
+            "rendering, persist and every provider event that is not a malformed call (five decidable clauses, each with an "
+            "example of the engine's internal error) keeps well-formedness and raises only documented refusals, for every "
+            "evaluator that raises no internal class itself; lifted to histories; reruns are not covered. "
             "Tested, not proved: grammar validation and the regex extraction of references (oracles, fault injection at every "
-            "inspected position), the context worklist over the task graph, and 'accepted => no internal error under every "
-            "history' (generated accepted definitions under random histories in lock step with the conductor model).",
+            "inspected position), the context worklist over the task graph, and no internal error on histories with reruns "
+            "(generated accepted definitions under random histories in lock step with the conductor model).",
             "Known findings listing C15: D1, D8, D21, D24, D25 and C15-rerun-of-inflight-task. Single-fault mutants of "
             "every generated base are judged both ways against the real inspect() and an independent reference reading."),
 })
